@@ -258,12 +258,24 @@ class World:
             elif no_batch:
                 pass  # how a coping estimator talks to a peer without batch support is its own business
             else:
-                ctx.check(len(reqs) == 1, "order", "request-count", f"{len(reqs)} batch requests for one estimate call")
-                cs, ns = reqs[0]
-                ns = [ns] * len(cs) if isinstance(ns, int) else list(ns)
-                ctx.check(len(cs) == len(measurable) and all(x is y for x, (y, _) in zip(cs, measurable)), "order", "request-circuits",
-                          "the runner did not receive exactly the measurable circuits in task order")
-                ctx.check(ns == [m[1] for m in measurable], "order", "request-shots", f"shots sent {ns} != task shots {[m[1] for m in measurable]}")
+                # how the estimator groups its requests is its own business (one batch, one batch per shot count...):
+                # taken together they must ask for every measurable circuit exactly once, with at least its shots
+                sent = []
+                for cs, ns in reqs:
+                    ns = [ns] * len(cs) if isinstance(ns, int) else list(ns)
+                    ctx.check(len(ns) == len(cs), "order", "request-shape", f"a request with {len(cs)} circuits and {len(ns)} shot counts")
+                    sent += list(zip(cs, ns))
+                if len(reqs) == 1:
+                    ctx.probe("single-batch-request")
+                want = list(measurable)
+                ctx.check(len(sent) == len(want), "order", "request-circuits",
+                          f"{len(sent)} circuits were sent to the runner for {len(want)} measurable tasks")
+                left = list(sent)
+                for c, n_ in want:
+                    hit = next((k for k, (c2, n2) in enumerate(left) if c2 is c and n2 >= n_), None)
+                    ctx.check(hit is not None, "order", "request-circuits",
+                              f"a measurable task's circuit was not sent to the runner with at least its {n_} shots")
+                    left.pop(hit)
         with judge(ctx):
             ctx.check(isinstance(res, list) and len(res) == len(tasks), "order", "result-count", f"{len(res)} results for {len(tasks)} tasks")
             for i, (ev, e, t) in enumerate(zip(res, expect, a["tasks"])):
